@@ -97,7 +97,7 @@ impl Run {
             let a = mk_addr("osmo", n, 32);
             std::sync::Arc::make_mut(&mut w.names).add(n, &a);
         }
-        for n in ["staker", "collector", "staker2", "collector2", "n:u1", "n:u2", "n:u3", "n:u4"] {
+        for n in ["staker", "collector", "staker2", "collector2", "n:u1", "n:u2", "n:u3", "n:u4", "n:c1"] {
             let a = mk_addr(np, n, 20);
             std::sync::Arc::make_mut(&mut w.names).add(n, &a);
         }
